@@ -39,7 +39,11 @@ func (r *Rediaron) StartEphemeral(ctx context.Context, path string, heartbeat ti
 			select {
 			case <-tick.C:
 				if err := r.refreshEphemeral(ctx, path, heartbeat); err != nil {
-					r.revokeEphemeral(path)
+					// A key that has expired is not ours any more and may already
+					// belong to another registrant: notify without deleting it.
+					if !errors.Is(err, types.ErrKeyNotExists) {
+						r.revokeEphemeral(path)
+					}
 					return
 				}
 			case <-ctx.Done():
@@ -66,6 +70,12 @@ func (r *Rediaron) revokeEphemeral(path string) {
 func (r *Rediaron) refreshEphemeral(ctx context.Context, path string, ttl time.Duration) error {
 	ctx, cancel := context.WithTimeout(ctx, time.Second)
 	defer cancel()
-	_, err := r.cli.Expire(ctx, path, ttl).Result()
-	return err
+	alive, err := r.cli.Expire(ctx, path, ttl).Result()
+	if err != nil {
+		return err
+	}
+	if !alive {
+		return errors.Wrap(types.ErrKeyNotExists, path)
+	}
+	return nil
 }
